@@ -1,6 +1,6 @@
 (* Extraction of the executable models (ExtrOcamlBasic only; Z, nat, positive stay Coq datatypes). *)
 From Coq Require Import ZArith List Bool.
-From MV Require Import Prelude.Py Gen.TieredTime Gen.UpdateMin Time.Spec Static.Groups Static.Connect.
+From MV Require Import Prelude.Py Gen.TieredTime Gen.UpdateMin Time.Spec Static.Groups Static.Connect Static.Build Sched.Timing Sched.Plane Sched.Link.
 Require Extraction.
 Require Import ExtrOcamlBasic.
 Extraction Language OCaml.
@@ -12,4 +12,7 @@ Extraction "../build/model.ml"
   (* specification *)
   mkI act comp ilt ile igt ige ieq upd_min tlt tle teq wfIb
   (* static layer *)
-  wfGb group_path depth connect_interval connect_one should_reject is_rejected mkF.
+  wfGb group_path gdepth connect_interval connect_one should_reject is_rejected mkF
+  (* scheduler *)
+  mkStatic mkDStatic init_state init_dstate apply dapply all_done failing_guards begin_preview enabled_sims prog nexts cur pc
+  prepare mkScen mkConn build ancestors.
